@@ -744,6 +744,82 @@ fn base_cfg(r: &mut SmallRng, offline: bool, check_dups: bool) -> Cfg {
     }
 }
 
+
+// ---------------------------------------------------------------- the crate's own line lenders over a source that cannot seek
+
+/// A readable source whose every seek fails (a pipe, a FIFO, stdin).
+struct NoSeek<R>(R);
+impl<R: std::io::Read> std::io::Read for NoSeek<R> {
+    fn read(&mut self, buf: &mut [u8]) -> std::io::Result<usize> {
+        self.0.read(buf)
+    }
+}
+impl<R> std::io::Seek for NoSeek<R> {
+    fn seek(&mut self, _pos: std::io::SeekFrom) -> std::io::Result<u64> {
+        Err(std::io::Error::new(std::io::ErrorKind::Unsupported, "suxmon: this source cannot seek"))
+    }
+}
+
+/// "cannot be rewound": the keys come from sux's LineLender / GzipLineLender /
+/// ZstdLineLender over a source whose seek fails, and a duplicated key under
+/// check_dups forces a second pass. The build must return an error, never Ok.
+fn unseekable_case(c: &mut Case, fmt: usize, filter: bool, offline: bool, n: usize) {
+    use std::io::{BufReader, Cursor, Write};
+    use sux::utils::{FromIntoIterator, GzipLineLender, LineLender, ZstdLineLender};
+    let tag: u32 = c.rng().random();
+    let mut text = String::new();
+    for i in 0..n {
+        text.push_str(&format!("key-{:08x}-{}\n", tag, i));
+    }
+    let dup = c.rng().random_range(0..n);
+    text.push_str(&format!("key-{:08x}-{}\n", tag, dup));
+    let bytes: Vec<u8> = match fmt {
+        0 => text.into_bytes(),
+        1 => zstd::encode_all(text.as_bytes(), 3).expect("zstd"),
+        _ => {
+            let mut e = flate2::write::GzEncoder::new(Vec::new(), flate2::Compression::default());
+            e.write_all(text.as_bytes()).unwrap();
+            e.finish().unwrap()
+        }
+    };
+    let what = format!("{} keys + key #{} repeated, {} line lender over a source whose seek fails, check_dups(true), {} {}", n, dup, ["plain", "zstd", "gzip"][fmt], if offline { "offline" } else { "online" }, if filter { "filter" } else { "function" });
+    c.describe(|| what.clone());
+    let seed: u64 = c.rng().random();
+    macro_rules! go {
+        ($l:expr) => {{
+            if filter {
+                VBuilder::<u8, Box<[u8]>>::default().seed(seed).offline(offline).check_dups(true).try_build_filter($l, no_logging![]).map(|f| f.len())
+            } else {
+                VBuilder::<usize, BitFieldVec<usize>>::default().seed(seed).offline(offline).check_dups(true).try_build_func($l, FromIntoIterator::from(0_usize..), no_logging![]).map(|f| f.len())
+            }
+        }};
+    }
+    let r: Result<anyhow::Result<usize>, String> = match fmt {
+        0 => catch(|| go!(LineLender::new(BufReader::new(NoSeek(Cursor::new(bytes.clone())))))),
+        1 => catch(|| {
+            let l = ZstdLineLender::new(NoSeek(Cursor::new(bytes.clone())))?;
+            go!(l)
+        }),
+        _ => catch(|| {
+            let l = GzipLineLender::new(NoSeek(Cursor::new(bytes.clone())))?;
+            go!(l)
+        }),
+    };
+    c.tick(1);
+    match r {
+        Ok(Ok(len)) => c.fail(
+            if filter { "try_build_filter" } else { "try_build_func" },
+            "ok-after-failed-rewind",
+            "Ok returned although the key source could not be rewound",
+            &format!("the build returned Ok (len() = {}) for {}: the duplicate makes the first attempt fail and the keys cannot be replayed, so an error must be returned", len, what),
+        ),
+        Ok(Err(_)) => {}
+        Err(m) => c.fail(if filter { "try_build_filter" } else { "try_build_func" }, "panic", &m, &format!("the build panicked for {}", what)),
+    }
+    c.nontrivial();
+    c.set_cell(format!("unseekable|{}|{}|{}|n{}", ["plain", "zstd", "gzip"][fmt], if filter { "filter" } else { "func" }, if offline { "offline" } else { "online" }, n));
+}
+
 fn main() {
     default_thread_stacks();
     let mut ctx = Ctx::from_args("C17");
@@ -752,6 +828,16 @@ fn main() {
     let thorough = ctx.thorough();
     let mut r = ctx.rng(17);
     let timing = timing_enabled();
+    // 0. the crate's own line lenders over sources that cannot seek
+    for fmt in 0..3usize {
+        for (i, n) in [10usize, 100, 1000].into_iter().enumerate() {
+            for filter in [false, true] {
+                let offline = (i + fmt + filter as usize) % 2 == 1;
+                let variant = format!("{}/{}", ["LineLender", "ZstdLineLender", "GzipLineLender"][fmt], if filter { "filter" } else { "func" });
+                ctx.case(&variant, "cannot-rewind/unseekable-source", if filter { "try_build_filter" } else { "try_build_func" }, |c| unseekable_case(c, fmt, filter, offline, n));
+            }
+        }
+    }
     let mut run = |ctx: &mut Ctx, v: usize, s: Scn| {
         let var = &VARIANTS[v];
         let op = if var.func { "try_build_func" } else { "try_build_filter" };
